@@ -282,6 +282,12 @@ fn episode(ctx: &Ctx, f: Focus, case: u64, out: &mut Out) -> Result<(), (Fail, S
     e.huge_ok = case % 8 == 5 && f != Focus::C19;
     // an eighth of the episodes on a file system that completes some writes only partly (not those
     // that arm a fault of their own)
+    // another eighth (C02, C05, C19): now and then a set or delete in which one call on a data file
+    // fails; the key may then be in either state until it is written again (Eng::do_faulty_op)
+    let faulty = matches!(f, Focus::C02 | Focus::C05 | Focus::C19) && case % 8 == 3 && case % 5 != 2;
+    if faulty {
+        out.count("episodes_with_failing_operations", 1);
+    }
     let short = if case % 8 == 6 && case % 5 != 2 { Some(crate::shim::short_env(&dir, ctx.seed ^ case)) } else { None };
     let mut snapshots = 0u64;
     let mut snapshots_after_hint_rebuild = 0u64;
@@ -322,6 +328,36 @@ fn episode(ctx: &Ctx, f: Focus, case: u64, out: &mut Out) -> Result<(), (Fail, S
                         let _ = res;
                         e.check_all("after a merge with a failing hint-file call")?;
                         compare_hint_recovery(&mut e, ctx, case, out)?;
+                    }
+                    Focus::C19 if case % 5 == 2 && e.r.chance(1, 2) => {
+                        // a merge during which one call fails (create, write, fsync or unlink, on a
+                        // data or a hint file). It is still a crash-free history: the bookkeeping
+                        // has to be true after the merge was given up, and again after the next
+                        // open has rebuilt it from whatever files the merge left behind
+                        e.trace.push("merge with one failing call".into());
+                        crate::shim::log_reset();
+                        crate::shim::record_data(false);
+                        crate::shim::watch(Some(&e.dir));
+                        let nth = e.r.below(14) as i64;
+                        crate::shim::fail(crate::shim::C_WRITE | crate::shim::C_CREATE | crate::shim::C_FSYNC | crate::shim::C_UNLINK, crate::shim::F_ANY, nth, if e.r.chance(1, 2) { libc::ENOSPC } else { libc::EIO });
+                        let res = e.st().merge();
+                        let hit = crate::shim::fail_hit().is_some();
+                        crate::shim::fail_off();
+                        crate::shim::watch(None);
+                        crate::shim::log_reset();
+                        out.count(if hit { "merges_with_a_failed_call" } else { "merges_armed_but_fault_not_reached" }, 1);
+                        let _ = res;
+                        e.check_all("after a merge with a failing call")?;
+                        let (files, _) = check_accounting(&e, "after a merge with a failing call")?;
+                        out.count("files_compared", files);
+                        e.do_reopen(None)?;
+                        e.check_all("after a merge with a failing call and a reopen")?;
+                        let (files, _) = check_accounting(&e, "after a merge with a failing call and a reopen")?;
+                        out.count("files_compared", files);
+                        snapshots += 2;
+                        if hit {
+                            out.count("snapshots_after_a_failed_merge_and_reopen", 1);
+                        }
                     }
                     _ => {
                         e.check_all("before merge")?;
@@ -382,7 +418,13 @@ fn episode(ctx: &Ctx, f: Focus, case: u64, out: &mut Out) -> Result<(), (Fail, S
                 }
                 merged_since_reopen = false;
             } else {
-                e.random_op()?;
+                if faulty && e.r.chance(1, 25) {
+                    if e.do_faulty_op()? {
+                        out.count("operations_with_one_failing_call", 1);
+                    }
+                } else {
+                    e.random_op()?;
+                }
                 if f == Focus::C19 && step % 4 == 3 {
                     let (files, _) = check_accounting(&e, "after op")?;
                     snapshots += 1;
